@@ -426,7 +426,10 @@ func genC09(g *gen) {
 	g.note("descriptor level: every height and hash function")
 	for h := 2; h <= 30; h += 2 {
 		for hf := 0; hf < 3; hf++ {
-			g.op("d.new %d %d 0 0", h, hf)
+			out := g.op("d.new %d %d 0 0", h, hf)
+			f := strings.Fields(out)
+			g.check(len(f) == 6 && f[2] == fmt.Sprint(hf) && f[3] == "0" && f[4] == fmt.Sprint(h) && f[5] == "0", "descriptor-roundtrip",
+				fmt.Sprintf("NewQRLDescriptorFromBytes(GetBytes()) loses height=%d hash=%d: a wallet of this shape cannot be rebuilt from its extended seed", h, hf), g.ops[len(g.ops)-1])
 		}
 	}
 	g.note("XMSS keys rebuilt from extended seed and mnemonic")
